@@ -2,6 +2,8 @@
 import collections, os
 import vlib
 from gen import proggen
+import sys
+sys.path.insert(0, os.path.join(os.path.dirname(os.path.abspath(__file__)), "..", "gen"))
 
 IMPL_CLASS = {"ok": 0, "runtime:DivisionByZero": 1, "runtime:TypeError": 2, "runtime:IndexOutOfBounds": 3,
               "runtime:UndefinedVariable": 4, "runtime:NotCallable": 5, "runtime:ArityMismatch": 6,
@@ -59,11 +61,66 @@ def run_stream(ctx, progs, levels="0,1,2,3", gc=None):
     return res
 
 
+def run_selfcheck(ctx):
+    """Self-checking programs at the toolchain's size limits (tools/gen/scalegen.py): the expected
+    output is known by construction, independently of the front end's typed AST.  A program must
+    be rejected at compile time or print exactly the expected text, at every level."""
+    import scalegen
+    ok, paths, log = vlib.harness_build(["hx_run"])
+    if not ok:
+        ctx.broken.append("harness build failed (hx_run)")
+        ctx.log(log[-3000:])
+        return
+    cases = scalegen.gen(ctx.seed, ctx.tier)
+    levels = "0,2" if ctx.tier == "quick" else "0,1,2,3"
+    d = os.path.join(vlib.CACHE, "progs")
+    os.makedirs(d, exist_ok=True)
+    f = os.path.join(d, f"{ctx.pid}_scale_{os.getpid()}.txt")
+    open(f, "w").write("\n=====\n".join(c[1] for c in cases))
+    rc, out = vlib.sh([paths["hx_run"], "--file", f, "--opts", levels, "--budget", "120000000"], timeout=2400)
+    os.remove(f)
+    if rc != 0:
+        ctx.violation("c02:scale:harness-crash", "the toolchain crashed the harness process on a size-limit program (abort / stack overflow)",
+                      {"output_tail": out[-1500:]})
+    res = collections.defaultdict(dict)
+    for line in out.splitlines():
+        t = line.split("\t")
+        if len(t) >= 7 and t[0].isdigit():
+            res[int(t[0])][t[1]] = (t[3], unesc(t[4]), t[6])
+    st = collections.Counter()
+    fam = collections.Counter()
+    for i, (name, src, exp) in enumerate(cases):
+        family = name.rsplit("-", 1)[0]
+        for o in levels.split(","):
+            r = res[i].get(o)
+            if r is None:
+                st["missing-run"] += 1
+                continue
+            cls, outp, detail = r
+            if cls == "compile-error":
+                st["rejected-at-compile-time"] += 1
+                fam[family + ":rejected"] += 1
+            elif cls == "ok" and outp == exp:
+                st["correct-output"] += 1
+                fam[family + ":correct"] += 1
+            else:
+                st["wrong"] += 1
+                ctx.violation(f"c02:scale:{family}:{cls}",
+                              f"size-limit program {name} at -O{o}: accepted, but the run is `{cls}` with output {outp[:60]!r} ({unesc(detail)[:160]}); expected output {exp[:60]!r} or a compile-time diagnostic",
+                              {"generator": "tools/gen/scalegen.py", "name": name, "seed": ctx.seed, "level": int(o),
+                               "expected": exp[:2000], "program": src if len(src) < 60000 else src[:2000] + " ...(regenerate with the generator)"})
+    ctx.cov["scale_selfcheck"] = {"programs": len(cases), "runs": sum(st.values()), "outcomes": dict(st), "by_family": dict(sorted(fam.items()))}
+    ctx.cov["evaluations"] = ctx.cov.get("evaluations", 0) + sum(st.values())
+    ctx.log(f"size-limit self-checks: {dict(st)}")
+
+
+
 TRUSTED = [
     "Coq 8.16.1 kernel + vm_compute",
     "coq/Model/Eval.v: definitional evaluator written from docs/language-spec.md (ints wrapping at 48 bits, truncating division, short-circuit and/or, block scoping and shadowing, top-level lets as globals, parameters as copies, closures sharing cells, arrays/vecs by reference with bounds checks, ranges, for-each, break/continue, string concatenation and interpolation, float arithmetic/comparison with int promotion through the PrimFloat codec of Model/VmArith.v); float printing, structs, slices, casts, std modules other than print/println are outside the modelled fragment and are discarded (counted)",
     "harness/src/astdump.rs renders aelys_sema::TypedProgram as a Coq term (Grouping and type annotations dropped)",
     "tools/gen/proggen.py generates only terminating, mostly type-correct programs",
+    "tools/gen/scalegen.py computes the expected output of its size-limit programs by construction (sums, counts, concatenations)",
 ]
 
 
@@ -146,6 +203,7 @@ def run(ctx):
         ctx.violation(sig, f"compiled execution differs from the definitional evaluator at -O{lv}",
                       {"program": progs[i], "levels_differing": lv,
                        "implementation": {f"O{l}": runs[l] for l in range(4)}, "evaluator": mo[0]})
+    ctx.cov["model_too_slow"] = len([x for x in vlib.SLOW_CASES if x[0] == "c02"])
     ctx.cov["programs"] = len(cases)
     ctx.cov["disagreements_checked"] = len(cases) * 4
     ctx.cov["evaluations"] = len(cases) * 4
@@ -160,6 +218,7 @@ def run(ctx):
                        "non-trivial = distinct program text longer than 40 chars on which all four levels agreed with the evaluator")
     for i in idx[:3]:
         ctx.add_samples([{"program": progs[i], "O0": res[i]["run"]["0"][:3]}])
+    run_selfcheck(ctx)
 
 
 def classify(prog, runs, lv):
